@@ -402,6 +402,10 @@ def rule_f4(F):
     ret = [bi for bi, t in mir.calls(rv) if hir.last(mir.callee(t)) == "emit_return"]
     drops = [bi for bi, t in mir.calls(rv) if hir.last(mir.callee(t)) == "emit_drop"]
     revs = [bi for bi, t in mir.calls(rv) if hir.last(mir.callee_def(t)) == "rev"]
+    # the walk over the variables of one frame may be written in a closure handed to an adaptor (`flat_map(|frame| frame.iter().rev())`)
+    for cb in F.all_bodies():
+        if cb.path.startswith(rv.path + "::{closure") and cb.mir:
+            revs += [bi for bi, t in mir.calls(cb) if hir.last(mir.callee_def(t)) == "rev"]
     # the outer loop iterates over self.stack_slots (cloned)
     over_frames = False
     for bi, t in mir.calls(rv):
